@@ -23,8 +23,9 @@ fn unit(u: &mut Unstructured) -> f64 {
 /// C08 — rate converter
 pub fn conv(data: &[u8]) -> c08::Case {
     let mut u = Unstructured::new(data);
-    let ft = c08::FTS[idx(&mut u, 5)];
-    let interp = if flag(&mut u) { c08::Interp::Linear } else { c08::Interp::Floor };
+    let f = idx(&mut u, 7);
+    let ft = if f < 5 { c08::FTS[f] } else { c08::FTS_FLOOR_ONLY[f - 5] };
+    let interp = if flag(&mut u) && f < 5 { c08::Interp::Linear } else { c08::Interp::Floor };
     let src_len = if idx(&mut u, 4) == 0 { None } else { Some(1 + idx(&mut u, 59) as u64) };
     let ctor = c08::CTORS[idx(&mut u, 9)];
     let exact = idx(&mut u, 4) != 0;
@@ -61,7 +62,7 @@ pub fn conv(data: &[u8]) -> c08::Case {
 /// C11 — windowed RMS histories
 pub fn rms(data: &[u8]) -> c11_core::Case {
     let mut u = Unstructured::new(data);
-    let kind: Kind = c11_core::KINDS[idx(&mut u, 9)];
+    let kind: Kind = c11_core::KINDS[idx(&mut u, c11_core::KINDS.len())];
     let channels = [1usize, 2, 5][idx(&mut u, 3)];
     let n = 1 + idx(&mut u, 64);
     let exact = flag(&mut u);
